@@ -15,7 +15,7 @@ if not props:
 def one(job):
     c, s = job
     env = dict(os.environ, VERIF_SEED=str(s))
-    p = subprocess.run('cd /verif && ./check %s' % c, shell=True, env=env, stdout=subprocess.PIPE, stderr=subprocess.STDOUT, universal_newlines=True)
+    p = subprocess.run('cd %s && ./check %s' % (os.path.dirname(os.path.dirname(os.path.abspath(__file__))), c), shell=True, env=env, stdout=subprocess.PIPE, stderr=subprocess.STDOUT, universal_newlines=True)
     summ = [l for l in p.stdout.splitlines() if 'tier=' in l]
     return c, s, p.returncode, (summ[-1] if summ else p.stdout[-300:])
 # one property at a time per worker so that evidence/gen files of one property are not raced
